@@ -418,6 +418,7 @@ POSITIVE = [
     "import { listen, type UnlistenFn, type Event } from '@tauri-apps/api/event';\nimport * as types from './types';\nexport * from './types';",
     "export async function onX(handler: (payload: Record<string, [number, string | null]>) => void): Promise<UnlistenFn> { return listen<Record<string, [number, string | null]>>('a:b/c-d', (event) => { handler(event.payload); }); }",
     "export interface P extends z.infer<typeof PSchema> { onEvent: Channel<types.M>; }",
+    "export const m = \"ok \\u00f6 \\u0397 \\uD83D\\uDE00 \\u{1F600} \\x41\";",
 ]
 NEGATIVE = [
     "export async function delete(): Promise<void> { return invoke('delete'); }",
@@ -435,6 +436,13 @@ NEGATIVE = [
     "export async function f(class: number): Promise<void> {}",
     "export type T = [number, string;",
     "export const x = 'unterminated;",
+    # ill-formed escapes (four hex digits exactly; blanks, signs and 0x are not digits)
+    "export const m = \"bad \\uf6 escape\";",
+    "export const m = \"bad \\u397 escape\";",
+    "export const m = \"bad \\u+123 escape\";",
+    "export const m = \"bad \\x4 escape\";",
+    "export const m = \"bad \\u{ 1F600} escape\";",
+    "export const m = \"bad \\u{110000} escape\";",
 ]
 
 
